@@ -626,7 +626,7 @@ def dij_ob(prop, und, n, emax, fixs=None, **kw):
     if fixs is not None:
         defs["FIXS"] = fixs
     b = "verif_=%d,unordered_map=%d,findGeodesicsDijkstra&#0=%d,findGeodesicsDijkstra&#1=%d,default=%d" % (emax + 4, nm * nm + 2, emax + 4, nm + 2, max(nm + 3, emax + 4))
-    ob = {"id": "%s/%s/n%d-e%d/findGeodesicsDijkstra%s" % (prop, "uwg" if und else "dwg", n, emax, "" if fixs is None else "-s%d" % fixs), "src": "dijkstra.cpp", "defs": defs, "bounds": b, "no_validate": True, "spec_heap": True}
+    ob = {"id": "%s/%s/n%d-e%d/findGeodesicsDijkstra%s" % (prop, "uwg" if und else "dwg", n, emax, "" if fixs is None else "-s%d" % fixs), "src": "dijkstra.cpp", "defs": defs, "bounds": b, "no_validate": True, "spec_heap": True, "count_ub": prop == "C12"}
     ob.update(kw)
     return ob
 
@@ -640,7 +640,11 @@ def c12(tier):
         if tier == "quick":
             obs.append(dij_ob("C12", und, 2, 4 if not und else 3, optional_reach=["intermediate"]))
             for s in range(3):
-                obs.append(dij_ob("C12", und, 3, 3 if not und else 4, fixs=s, timeout=300, mem_gb=8))
+                obs.append(dij_ob("C12", und, 3, 3 if not und else 4, fixs=s, timeout=900, mem_gb=8))
+            if not und:
+                o = dij_ob("C12", und, 4, 4, fixs=0, timeout=900, mem_gb=8)
+                o["defs"]["FAMILY"] = 1; o["id"] += "-forward-family"
+                obs.append(o)
         else:
             obs.append(dij_ob("C12", und, 2, 4, optional_reach=["intermediate"]))
             for s in range(3):
@@ -651,7 +655,7 @@ def c12(tier):
 
 
 PROPS["C12"] = {"gen": c12,
-    "bounds": {"quick": "DirectedWeightedGraph: all graphs on 2 vertices, on 3 vertices with at most 3 edges; UndirectedWeightedGraph: 2 vertices, 3 vertices with at most 4 list entries; weights from {0, .25, .5, 1, 1.5, 2}; every source; every heap arrangement the standard allows",
+    "bounds": {"quick": "DirectedWeightedGraph: all graphs on 2 vertices, on 3 vertices with at most 3 edges; UndirectedWeightedGraph: 2 vertices, 3 vertices with at most 4 list entries; weights from {0, .25, .5, 1, 1.5, 2}; every source; every heap arrangement the standard allows; plus the forward family on 4 vertices (every subset of at most 4 of the edges i->j, i<j, source 0), where a queued vertex has its distance lowered (decrease-key). The preconditions of make_heap/push_heap/pop_heap (the range is a heap for the comparator used) count as part of this property: the distances rest on them",
                "thorough": "3 vertices up to 5 (directed) / 6 (undirected) list entries; 4 vertices up to 4 list entries"},
     "outside": "larger graphs; weights outside the table (inexact sums: the rounding clause of the property is not claimed)",
     "explanation": "Certificate oracle: distances form a feasible potential, every reached vertex has a tight predecessor edge, the predecessor chain leads to the source - which characterises minimum distances for non-negative weights; unreachable vertices carry +inf and the sentinel. Termination is the unwinding bound of the main loop.",
@@ -716,30 +720,32 @@ def c17(tier):
         take(c09, r"/n[02]$|ctor-.*-list$")
         take(c10, r"/n2-S[0-9empty]*$")
         take(c11, r"/n3/(findVertexPredecessors|findGeodesics|findGeodesicsFromVertex|findPathToVertexFromPredecessors)$|/n2/findAll")
-        take(c12, r"n2-e|n3-e.*-s0$")
+        take(c12, r"n2-e|n3-e.*-s0$|forward-family")
         take(c13, r"tokeniser|loadTextEdgeList-dir-2lines$|writeTextEdgeList-dir")
         take(c14, r"/dir/(int|double|nolabel)/")
         take(c15_bin, r"/dir/(int|u8)/")
     else:
-        n = "n[34]"
-        take(c01, r"/dir/int/%s/.*/(core|neigh|edges|matrix|indegs)$" % n)
-        take(c02, r"/und/int/%s/.*/(core|neigh|degree|matrix)$" % n)
+        # the deeper tier of each harness family that exercises iterators, work lists, heaps, buffers and streams; the single-step
+        # harnesses of C01-C05/C16 are taken at the quick tier's selection plus the 4-vertex removal steps
+        take(c01, r"/dir/int/n3/.*/(core|neigh|edges|matrix|indegs)$")
+        take(c01, r"/dir/int/n4/(removeVertexFromEdgeList|removeSelfLoops|removeEdge)/core$")
+        take(c02, r"/und/int/n3/.*/(core|neigh|degree|matrix)$")
         take(c02, r"/und/int/n2/anystate/edges$")
-        take(c03, r"/(dir|und)/(string|struct)/n3/")
-        take(c04, r"/(dmg|umg)/n3/")
+        take(c03, r"/(dir|und)/(string|struct)/n3/[^/]*/core$")
+        take(c04, r"/(dmg|umg)/n3/[^/]*/(core|degree|matrix)$")
         take(c04, r"wide")
-        take(c05, r"/(dwg|uwg)/n3/[^/]*/(core|wmatrix|total)")
-        take(c16_simple, r".")
-        take(c16_mg, r".")
-        take(c16_wg, r".")
-        take(c06, r"/n3-3/")
+        take(c05, r"/(dwg|uwg)/n3/[^/]*/(core|wmatrix)$")
+        take(c16_simple, r"/core$")
+        take(c16_mg, r"/core$")
+        take(c16_wg, r"/core$")
+        take(c06, r"/(dir-int|umg|uwg)/n3-3/")
         take(c08, r".")
         take(c09, r".")
         take(c10, r"/n[23]-S[0-9empty]*$")
         take(c11, r"/n3/")
         take(c12, r".")
         take(c13, r".")
-        take(c14, r".")
+        take(c14, r"/dir/|/und/(int|nolabel)/")
         take(c15_bin, r".")
         take(c15_txt, r".")
     out = []
